@@ -177,7 +177,7 @@ var propDocs = map[string]propDoc{
 		Assumptions: contractBase,
 	},
 	"C07": {
-		Explanation: "R9 (forward taint from the frozen axis-source table: Flatten.axis, Squeeze inputs[1], Unsqueeze inputs[1]): R9a every Go-level use (index, slice bound, selection against a dimension index) of the user value is dominated by a rejecting lower AND upper bound on a value of the same taint set - at the use, at every call site passing the tainted value, on the tainted edges of a merge, or on the err==nil edge of a library callee that validates on every success return; ops.AllInRange-style checkers count two-sided unless a bound is an extreme constant. R9b the value used derives from `x + r` computed under `x < 0`, where r is derived (through parameters, closures and cells) from len(Shape()), Dims() or Shape()[k] of a tensor. R9c axis sets are sorted and a duplicate returns an error. R3 (E2) clone-before-Reshape: no Reshape on borrowed storage in the five operators. R20 a Data() value asserted to a slice type passes the scalar wrapper first. R22 no lax (tensor.Shape).Eq reachable from the five operators (a "shape already right" shortcut through it skips (n) <-> (n,1) reshapes). NOT decided: gorgonia's Reshape contract (row-major order kept, count mismatch rejected), processShape's -1 arithmetic.",
+		Explanation: "R9 (forward taint from the frozen axis-source table: Flatten.axis, Squeeze inputs[1], Unsqueeze inputs[1]): R9a every Go-level use (index, slice bound, selection against a dimension index) of the user value is dominated by a rejecting lower AND upper bound on a value of the same taint set - at the use, at every call site passing the tainted value, on the tainted edges of a merge, or on the err==nil edge of a library callee that validates on every success return; ops.AllInRange-style checkers count two-sided unless a bound is an extreme constant. R9b the value used derives from `x + r` computed under `x < 0`, where r is derived (through parameters, closures and cells) from len(Shape()), Dims() or Shape()[k] of a tensor. R9c axis sets are sorted and a duplicate returns an error. R3 (E2) clone-before-Reshape: no Reshape on borrowed storage in the five operators. R20 a Data() value asserted to a slice type passes the scalar wrapper first. R22 no lax (tensor.Shape).Eq reachable from the five operators (a shape-already-right shortcut through it skips (n) <-> (n,1) reshapes). NOT decided: gorgonia's Reshape contract (row-major order kept, count mismatch rejected), processShape's -1 arithmetic.",
 		Assumptions: contractBase,
 	},
 	"C08": {
